@@ -14,10 +14,16 @@ def run(R, tier, seed, only=None):
     for target in ("sql.sqlite", "sql.generic"):
         jobs = [("c_prog", f"{target}:{tag}", prog, {"k": k, "timeout_ms": to, "target": target}) for tag, prog in fam]
         propcheck.run_family(R, drv, jobs, f"projections/{target}")
+    if only in (None, "exclude"):
+        # dialects with a SELECT * EXCLUDE / EXCEPT facility: no engine here, so only the result schema (binder on the
+        # re-parsed text) is compared with the final frame; value differences are not reported for them
+        for target in ("sql.duckdb", "sql.bigquery"):
+            jobs = [("c_prog", f"{target}:{tag}", prog, {"k": 1, "timeout_ms": to, "target": target}) for tag, prog in fam]
+            propcheck.run_family(R, drv, jobs, f"projections-schema/{target}", max_unsupported=0.5)
     R.cov["bounds"] = {"rows_per_table": k, "value_range": "|v| <= 2^20", "targets": ["sql.sqlite", "sql.generic"], "family": families.family_c05.__doc__ or "projections"}
     R.cov["functions_encoded"] = ["prqlc::compile per program; emitted SQL encoded by engines/symdb/sqlsem.py (binder + bag/sequence semantics)"]
     R.cov["trusted_base"] = propcheck.TRUSTED
-    R.cov["outside_bounds"] = ["ties and NULLs in sort / positional window keys", "take without a sort in effect", "text/float/date data", "other dialects", "longer pipelines"]
+    R.cov["outside_bounds"] = ["duckdb / bigquery: result schema only (no engine here), programs whose SQL uses dialect functions outside the encoded subset are skipped", "ties and NULLs in sort / positional window keys", "take without a sort in effect", "text/float/date data", "other dialects", "longer pipelines"]
     R.assumptions += propcheck.COMMON_ASSUMPTIONS
 
 
